@@ -178,6 +178,16 @@ def check_flush_buffer(A, rep):
             else:
                 rep.fail("C07.c", norm_key("C07.c", func.qualname, "isolation"),
                          "the class-wide flush does not isolate a failing file: its handler can leave the loop / re-raise, or does not record the file", g.witness(w1 or w2 or []), label)
+            # collections that were retained (still buffered / forced flush) go back into the registry on EVERY way out
+            restores = [n.id for n in lv if n.kind == "cs_write" and n["name"] == "_buffered_collections" and n["op"] in ("call:update", "rebind", "setitem") and n.func.endswith("._flush_buffer")]
+            outs_ = [g.exit] + [n.id for n in lv if n.kind == "raise" and "BufferedError" in (n["exc"] or ()) and n.func.endswith("._flush_buffer")]
+            wr = g.must_pass(g.entry, outs_, restores)
+            if wr is None and restores:
+                rep.ok("C07.c", f"C07.c {label}: retained collections are put back into the registry on the normal and on the BufferedError exit")
+            else:
+                rep.fail("C07.c", norm_key("C07.c", func.qualname, "registry-restore"),
+                         "the class-wide flush can leave (normally or with BufferedError) without putting the retained collections back into the registry: they are never flushed again and their buffer entries outlive all contexts",
+                         g.witness(wr or []), label)
             be = [n for n in lv if n.kind == "raise" and "BufferedError" in (n["exc"] or ()) and n.func.endswith("._flush_buffer")]
             stored_dict = [g.nodes[s]["base"] for s in stores]
             good = [n for n in be if n["value"] is not None and any(a in stored_dict for a in n["value"].args[2])]
